@@ -420,18 +420,74 @@ def tr_step(trigs, script, sstates, needs):
 # ---- 84081f2: re-attachment clears the deferred flag of the consumers ------------------------
 
 
-def tr_undefer(trigs):
-    """step_node_undefer_reattached, modelled by undefer_post of model/GraphExt.v: exact shape."""
+_UNDEFER_BASE = ("UPDATE step SET deferred = FALSE WHERE deferred AND node IN "
+                 "(SELECT sink FROM dependency WHERE source = NEW.i)")
+# canonical text of the "unusable dynamic input" subquery (aliases removed, {N} = the node expression)
+_UNUSABLE_CANON = ("SELECT 1 FROM dependency JOIN dynamic_dep ON dynamic_dep.i = dependency.i "
+                   "JOIN node ON node.i = dependency.source JOIN file ON file.node = dependency.source "
+                   "WHERE dependency.sink = {N} AND ( node.detached OR file.state NOT IN (%d, %d) )")
+
+
+def _canon_unusable(sql: str, node_expr: str, enums) -> bool:
+    t = _norm(sqlexpr.strip_comments(sql))
+    for alias, table in (("dyn_dep", "dependency"), ("dyn_node", "node"), ("dyn_file", "file")):
+        t = t.replace(f"{table} AS {alias}", table)
+        t = re.sub(rf"\b{alias}\b", table, t)
+    t = re.sub(r"\(\s+", "( ", t)
+    t = re.sub(r"\s+\)", " )", t)
+    want = (_UNUSABLE_CANON % (int(enums.FileState.CONFIRMED), int(enums.FileState.BUILT))).replace("{N}", node_expr)
+    return _norm(t) == _norm(want)
+
+
+def tr_undefer(trigs, enums, stepm):
+    """step_node_undefer_reattached (modelled by undefer_post_with of model/GraphExt.v) in one of its two
+    forms -- the first form of 84081f2 (every deferred consumer of the re-attached node) or the
+    refinement (... AND NOT EXISTS (unusable dynamic input of the step)) -- and the query of
+    Step.has_unusable_dynamic_input, inline or through the shared fragment unusable_dynamic_input_sql.
+    Returns refined : bool."""
     t = _get_trigger(trigs, "step_node_undefer_reattached", "UPDATE OF detached", "node")
     if t["when"] != "OLD.detached AND NOT NEW.detached":
         raise TranslatorError(f"step_node_undefer_reattached: WHEN changed: {t['when']}")
-    if t["body"] != ("UPDATE step SET deferred = FALSE WHERE deferred AND node IN "
-                     "(SELECT sink FROM dependency WHERE source = NEW.i);"):
-        raise TranslatorError(f"step_node_undefer_reattached: action changed: {t['body']}")
+    body = t["body"]
+    if body == _UNDEFER_BASE + ";":
+        refined = False
+    else:
+        m = re.fullmatch(re.escape(_UNDEFER_BASE) + r" AND NOT EXISTS \((.*)\);", body)
+        if not m or not _canon_unusable(m.group(1), "step.node", enums):
+            raise TranslatorError(f"step_node_undefer_reattached: action not recognised: {body}")
+        refined = True
+    # Step.has_unusable_dynamic_input: SELECT EXISTS (<the same subquery for ?>)
+    fn = None
+    for node in ast.walk(parse_module(f"{CORE}/step.py")):
+        if isinstance(node, ast.FunctionDef) and node.name == "has_unusable_dynamic_input":
+            fn = node
+    if fn is None:
+        raise TranslatorError("Step.has_unusable_dynamic_input not found")
+    frag = getattr(stepm, "unusable_dynamic_input_sql", None)
+    src = ast.unparse(fn)
+    if frag is not None and "unusable_dynamic_input_sql('?')" in src:
+        if _norm(src).count("SELECT EXISTS ({unusable_dynamic_input_sql('?')})") != 1:
+            raise TranslatorError("has_unusable_dynamic_input: not `SELECT EXISTS (<fragment>)`")
+        sub = frag("?")
+    else:
+        lits = [n for n in ast.walk(fn) if isinstance(n, ast.JoinedStr)]
+        if len(lits) != 1:
+            raise TranslatorError("has_unusable_dynamic_input: expected one f-string query")
+        text = "".join(v.value if isinstance(v, ast.Constant) else
+                       str(int(eval(compile(ast.Expression(v.value), "<q>", "eval"), {"FileState": enums.FileState})))
+                       for v in lits[0].values)
+        m = re.fullmatch(r"SELECT EXISTS \((.*)\)", _norm(text))
+        if not m:
+            raise TranslatorError("has_unusable_dynamic_input: not `SELECT EXISTS (...)`")
+        sub = m.group(1)
+    if not _canon_unusable(sub, "?", enums):
+        raise TranslatorError(f"has_unusable_dynamic_input: query not recognised: {_norm(sub)}")
+    if "return bool(self.db.execute(sql, (self.i,)).fetchone()[0])" not in src:
+        raise TranslatorError("has_unusable_dynamic_input: result expression changed")
     src = (REPO / CORE / "executor.py").read_text()
     if src.count("step.set_state(StepState.PENDING, step.has_unusable_dynamic_input())") != 1:
         raise TranslatorError("validate_dynamic_job: the deferred flag is no longer has_unusable_dynamic_input()")
-    return True
+    return refined
 
 
 # ---- undeclared => detached -----------------------------------------------------------------
@@ -662,7 +718,7 @@ def facts():
         "creator_kind_exempt": creator_exempt,
         "dependency_kinds": tr_dependency_kinds(all_trigs, names),
         "declarable_states": tr_declarable(enums, wf),
-        "undefer_reattached": tr_undefer(all_trigs),
+        "undefer_refined": tr_undefer(all_trigs, enums, stepm),
         "census": census(all_trigs),
     }
 
@@ -733,6 +789,8 @@ def render_facts(f) -> str:
         "      deferred = FALSE for the steps that consume the node) and validate_dynamic_job's flag:",
         "      recognised in their exact shape; modelled by undefer_post / has_unusable_dynamic_input of model/GraphExt.v *)",
         "Definition gen_undefer_reattached : bool := true.",
+        "(*    ... AND NOT EXISTS (unusable dynamic input of the step): the refined form of the trigger *)",
+        f"Definition gen_undefer_refined : bool := {'true' if f['undefer_refined'] else 'false'}.",
         "",
         "(* g. node kinds: " + ", ".join(f"{k!r} = {c}" for k, c in sorted(f["kind_names"].items(), key=lambda kc: kc[1]))
         + " (Root/File/Step/StaticTree.kind()) *)",
